@@ -68,7 +68,7 @@ def parse_zck(b):
 
 # ---------------------------------------------------------------- loopback range server
 class State:
-    file = b""; max_ranges = 10 ** 6; boundary = "00000000000000000001"; quoted = False; log = []; served = 0; kill_after = None; victim = None; vary = False; multiparts = 0; no_ranges = False
+    file = b""; max_ranges = 10 ** 6; boundary = "00000000000000000001"; quoted = False; log = []; served = 0; kill_after = None; victim = None; vary = False; multiparts = 0; no_ranges = False; redirect = False
 
 
 class H(http.server.BaseHTTPRequestHandler):
@@ -79,6 +79,8 @@ class H(http.server.BaseHTTPRequestHandler):
 
     def do_GET(self):
         f = State.file; rh = self.headers.get("Range")
+        if State.redirect and not self.path.startswith("/mirror/"):      # a mirror redirector: every request is first answered with 302 to the place that serves ranges
+            self.send_response(302); self.send_header("Location", "/mirror" + self.path); self.send_header("Content-Length", "0"); self.end_headers(); return
         if not rh or State.no_ranges:           # a server without range support answers every request with the whole file
             self.send_response(200); self.send_header("Content-Length", str(len(f))); self.end_headers(); self.out(f); State.log.append((None, 200)); return
         m = re.match(r"bytes=(.*)$", rh.strip()); rg = []
@@ -236,7 +238,9 @@ def check_case(case):
     if T0:
         open(tp, "wb").write(T0)
     State.file = B; State.max_ranges = case["max_ranges"]; State.boundary = case["boundary"]; State.quoted = case["quoted"]; State.log = []; State.served = 0; State.kill_after = None; State.vary = case.get("vary_boundary", False); State.multiparts = 0
-    State.no_ranges = bool(case.get("no_ranges")) and not case["kill_after"]
+    State.no_ranges = bool(case.get("no_ranges")) and not case["kill_after"]; State.redirect = bool(case.get("redirect"))
+    if State.redirect:
+        label("via-redirect")
     hp = min(max(89, hb["total"]), len(B))
     on_disk_at_kill = None
     if case["kill_after"]:
@@ -294,7 +298,7 @@ def check_case(case):
 
 
 def describe(case):
-    return "segs=%d edits=%d have_a=%s target=%d comp=%s max_ranges=%d boundary=%r%s quoted=%s kill_after=%s" % (len(case["segs"]), len(case["edits"]), case["have_a"], case["target"], case["comp"], case["max_ranges"], case["boundary"], "(varies)" if case.get("vary_boundary") else "", case["quoted"], case["kill_after"])
+    return "segs=%d edits=%d have_a=%s target=%d comp=%s max_ranges=%d boundary=%r%s quoted=%s kill_after=%s" % (len(case["segs"]), len(case["edits"]), case["have_a"], case["target"], case["comp"], case["max_ranges"], case["boundary"], "(varies)" if case.get("vary_boundary") else "", case["quoted"], case["kill_after"]) + (" via-302-redirect" if case.get("redirect") else "")
 
 
 def write_replay(case, sig, msg):
@@ -338,7 +342,7 @@ def base_cases(draw):
     return {"segs": [list(x) for x in draw(st.lists(seg, min_size=1, max_size=14))], "edits": [[a, b, list(c)] for a, b, c in draw(st.lists(st.tuples(st.integers(0, 2), st.integers(0, 20), seg), max_size=4))],
             "have_a": draw(st.booleans()), "target": draw(st.integers(0, 4)), "damage": draw(st.integers(0, 2 ** 15)), "comp": draw(st.sampled_from([None, "none", "zstd"])),
             "max_ranges": draw(st.sampled_from([1, 2, 7, 127, 10 ** 6, 10 ** 6])), "boundary": draw(st.one_of(st.just("00000000000000000001"), st.text(alphabet="0123456789abcdefXYZ", min_size=1, max_size=40), st.sampled_from(["a+b", "x(1)y", "gc0p4Jq0M2Yt08jU534c0p", "=_?:'a"]))),
-            "quoted": draw(st.booleans()), "vary_boundary": draw(st.booleans()), "no_ranges": draw(st.integers(0, 7)) == 0, "fail_no_ranges": draw(st.integers(0, 2)) == 0, "kill_after": draw(st.integers(1, 60000)) if A.property == "C11" else draw(st.one_of(st.none(), st.none(), st.none(), st.integers(1, 30000)))}
+            "quoted": draw(st.booleans()), "vary_boundary": draw(st.booleans()), "no_ranges": draw(st.integers(0, 7)) == 0, "fail_no_ranges": draw(st.integers(0, 2)) == 0, "redirect": draw(st.integers(0, 3)) == 0, "kill_after": draw(st.integers(1, 60000)) if A.property == "C11" else draw(st.one_of(st.none(), st.none(), st.none(), st.integers(1, 30000)))}
 
 
 N = A.cases or (25 if A.tier == "quick" else 400)
